@@ -1,4 +1,5 @@
 import XModel.Opt
+import XModel.OptLimits
 /-!
 # C09 — solve() returns only on a matched point and otherwise restores the knobs
 Model: `XModel/Opt.lean`, the control skeleton of `Optimize.solve / step / reload`,
@@ -45,5 +46,22 @@ theorem C09_restore_unit_weights (c : Cfg R) (its : List (Iter R)) (tb : Option 
   rcases h3 j with hj | hj
   · exact hj
   · rw [hj, hunit]
+
+/-! non-vacuity: the two-knob configuration of `Opt.LimitsExample` with `assert_within_tol` and `restore_if_fail` on;
+    a `solve()` whose points are never within tolerance raises `noTol` and puts the knobs of row 0 back, one whose points
+    are within tolerance returns normally (the hypotheses of `C09_restore` / `C09_return_matched` are satisfiable;
+    the log must be non-empty at entry: true after `Optimize.__init__`, which logs the start point) -/
+section example_
+open Opt.LimitsExample
+def cfgFail : Cfg Int := { good with assertWithinTol := true, restoreIfFail := true }
+def cfgOk : Cfg Int := { good with within := fun _ _ => true, assertWithinTol := true, restoreIfFail := true }
+def sStart : St Int := st0 1 (-2) (fun _ => true) [⟨fun j => if j = 0 then 1 else -2, fun _ => true, fun _ => true⟩]
+example : errOf (solve cfgFail [it1] none sStart).1 = some .noTol ∧
+    ((solve cfgFail [it1] none sStart).2.knobs 0, (solve cfgFail [it1] none sStart).2.knobs 1) = (1, -2) := by
+  decide +kernel
+example : isOk (solve cfgOk [it1] none sStart).1 = true ∧
+    ((solve cfgOk [it1] none sStart).2.knobs 0, (solve cfgOk [it1] none sStart).2.knobs 1) = (3, 3) := by
+  decide +kernel
+end example_
 
 end Properties.C09
